@@ -291,9 +291,16 @@ pub fn run_job(job: &Job) -> Local {
         }
         v
     };
+    // once a few crashes/hangs are known the verdict of the job is decided: stop paying seconds per
+    // further hang (the evidence then says the job was not completed)
+    let crashes = std::sync::atomic::AtomicUsize::new(0);
     super::par_for(chunks.len(), |ci, local| {
         let (mut start, end) = chunks[ci];
         while start < end {
+            if crashes.load(std::sync::atomic::Ordering::SeqCst) >= 3 {
+                local.count("chunks-skipped-after-crashes");
+                break;
+            }
             match run_child(job, start, end, false) {
                 ChildEnd::Done(l) => {
                     local.merge(l);
@@ -318,6 +325,7 @@ pub fn run_job(job: &Job) -> Local {
                                 }
                             }
                             local.evals += 1;
+                            crashes.fetch_add(1, std::sync::atomic::Ordering::SeqCst);
                             local.fail(&sig, (job.describe)(ord), detail);
                             start = ord + 1;
                         }
